@@ -122,6 +122,76 @@ def main(ck, tier, w):
             tags = []
             ck.violation('; '.join(probs), {'scenario': obs, 'observed': r.brief(), 'tags': tags,
                                             'how': 'linear chain of T+1 blocks (lib/chains.std_chain), 2 blocks per blk file'})
+    # --- numeric extremes of --start / --end (u64 options): an end beyond the tip, however large, is the tip; a start beyond the
+    # tip, however large, is an empty range (the model covers tip+1 and tip+2; these must behave like them)
+    xblocks = genesis_rooted_chain(4, 'bitcoin', 'asc')
+    xd = datadir.simple_dir(w.sub('dd'), xblocks, 'bitcoin').write()
+    for cb in ('csvdump', 'unspentcsvdump', 'balances', 'simplestats', 'opreturn'):
+        def xrun(s_, e_):
+            r = run.run_parser(xd, cb, dump=w.mk('out') if cb in FILECB else None, start=s_, end=e_, verify=cb == 'csvdump')
+            body = sorted(tuple(sorted(v.splitlines())) for v in r.files.values()) if cb in FILECB else (chains.strip_log(r.out) if cb == 'opreturn' else
+                                                                 {k: v for k, v in chains.parse_stats(r.stdout).items()})
+            return r, body
+        whole, wbody = xrun(None, None)
+        for e_ in (4, 2 ** 16, 2 ** 32 - 1, 2 ** 32, 2 ** 63, 2 ** 64 - 1):
+            r, body = xrun(1 if e_ % 2 else None, e_)
+            ref_r, ref_body = xrun(1, None) if e_ % 2 else (whole, wbody)
+            ck.evals()
+            ck.distinct(('xend', cb, e_))
+            if r.rc != 0 or body != ref_body or (cb in FILECB and r.listing != ref_r.listing):
+                ck.violation('%s --end %d (chain tip 3): exit %d, result differs from the run without --end (%s vs %s)' % (cb, e_, r.rc, r.listing, ref_r.listing),
+                             {'end': e_, 'callback': cb, 'observed': r.brief(), 'tags': []})
+        empty, ebody = xrun(4, None)
+        for s_ in (5, 2 ** 16, 2 ** 32, 2 ** 63, 2 ** 64 - 1):
+            r, body = xrun(s_, None)
+            ck.evals()
+            ck.distinct(('xstart', cb, s_))
+            if r.rc != empty.rc or body != ebody:
+                ck.violation('%s --start %d (chain tip 3): exit %d and content differ from --start 4 (exit %d), both ranges are empty' % (cb, s_, r.rc, empty.rc),
+                             {'start': s_, 'callback': cb, 'observed': r.brief(), 'tags': []})
+
+    # --- more than 2^16 blocks (heights, record counts and positions are 32/64-bit quantities)
+    NL = 66000
+    lspk = btc.p2pkh(b'\x09' * 20)
+    lblocks = datadir.linear_chain(NL, txs_fn=lambda h: [btc.coinbase(h, lspk if h % 500 else btc.p2pkh(h.to_bytes(4, 'big') * 5))])
+    ld = datadir.simple_dir(w.sub('dd'), lblocks, 'bitcoin').write()
+
+    def lrun(c):
+        cb, s_, e_ = c
+        import shutil
+        cl = w.sub('cl')
+        shutil.copytree(ld, cl)       # LevelDB locks the index: one copy per concurrent run
+        return c, run.run_parser(cl, cb, dump=w.mk('out') if cb in FILECB else None, start=s_, end=e_, timeout=900)
+    for (cb, s_, e_), r in chains.pmap(lrun, [('csvdump', 65530, None), ('csvdump', 65534, 65538), ('simplestats', None, None), ('unspentcsvdump', None, None),
+                                               ('balances', 32767, 65537)], 5):
+        ck.evals()
+        ck.distinct(('long', cb, s_, e_))
+        lo, hi = s_ or 0, NL - 1 if e_ is None else e_
+        probs = []
+        if r.rc != 0:
+            probs.append('exit %d: %s' % (r.rc, r.stderr[-200:]))
+        else:
+            if chains.processed_upto(r.stdout) != hi:
+                probs.append('"Processed blocks up to height" says %s, expected %d' % (chains.processed_upto(r.stdout), hi))
+            chain = [(h, lblocks[h]) for h in range(lo, hi + 1)]
+            if cb == 'csvdump':
+                exp, _ = ref.csv_expected(chain, 'bitcoin')
+                probs += ['%s-%d-%d.csv differs from the rows of heights %d..%d (dump folder %s)' % (f, lo, hi, lo, hi, r.listing)
+                          for f in exp if r.files.get('%s-%d-%d.csv' % (f, lo, hi)) != exp[f]]
+            elif cb == 'simplestats':
+                st = chains.parse_stats(r.stdout)
+                if (st.get('blocks'), st.get('txs')) != (NL, NL):
+                    probs.append('simplestats counted %s blocks / %s transactions, expected %d' % (st.get('blocks'), st.get('txs'), NL))
+            else:
+                pre = 'unspent' if cb == 'unspentcsvdump' else 'balances'
+                rows = set(r.files.get('%s-%d-%d.csv' % (pre, lo, hi), b'').decode('utf-8', 'replace').splitlines()[1:])
+                want = ref.unspent_rows(ref.utxo_expected(chain, 'bitcoin')) if cb == 'unspentcsvdump' else ref.balances_rows(ref.utxo_expected(chain, 'bitcoin'))
+                if rows != want:
+                    probs.append('%s rows differ from the reference over heights %d..%d (%d vs %d rows; dump folder %s)' % (cb, lo, hi, len(rows), len(want), r.listing))
+        if probs:
+            ck.violation('chain of %d blocks, %s --start %s --end %s: %s' % (NL, cb, s_, e_, '; '.join(probs[:3])),
+                         {'blocks': NL, 'callback': cb, 'start': s_, 'end': e_, 'observed': r.brief(), 'tags': []})
+
     # --- T: long runs, traces validated against the specification
     rng = random.Random(run.seed() * 7919 + 2)
     jobs = []
